@@ -25,7 +25,7 @@ from fordsim import orchestrate as O  # noqa: E402
 PROP = "C19"
 MUTATING = {"mkdir", "rmdir", "unlink", "rename", "utime", "chmod", "symlink", "link", "truncate",
             "open-w", "os.open-w", "sendfile"}
-PLACEMENTS = ["sibling", "nested", "abs", "dotdot", "symlink", "prestale", "cli", "prefile"]
+PLACEMENTS = ["sibling", "nested", "abs", "dotdot", "symlink", "prestale", "cli", "prefile", "spaced"]
 REFUSALS = ["eq_src", "above_src", "above_dotdot", "above_symlink", "cli_above", "cli_eq_src", "above_deep", "above_deep2"]
 ERRNO_FOR = {
     "open-w": ["ENOSPC", "EACCES", "EIO", "EROFS", "EMFILE", "EISDIR"],
@@ -125,6 +125,10 @@ def build(case, seed, root):
     elif place == "cli":
         argv_extra = ["-o", "clidoc"]
         out = P + "/clidoc"
+    elif place == "spaced":
+        opts["output_dir"] = "./my docs/api v1.2"
+        files["proj/my docs/keep me.txt"] = "a bystander next to the output directory, with a blank in its name\n"
+        out = P + "/my docs/api v1.2"
     elif place == "eq_src":
         opts["output_dir"] = "./src"
         out = P + "/src"
@@ -159,7 +163,7 @@ def build(case, seed, root):
     allowed = [out]
     gd = case.get("graph_dir")
     if gd == "in":
-        if place in ("sibling", "nested", "prestale", "prefile"):
+        if place in ("sibling", "nested", "prestale", "prefile", "spaced"):
             opts["graph_dir"] = opts["output_dir"] + "/graphs"
         else:
             opts["graph_dir"] = out + "/graphs"
@@ -212,7 +216,7 @@ def build(case, seed, root):
             opts["copy_subdir"] = ["assets", "nonexistent_subdir"]
     if case.get("media") == "ok":
         opts["media_dir"] = "./media"
-        for n in ("a.png", "b/c.txt"):
+        for n in ("a.png", "b/c.txt", "with blank.txt"):
             files["proj/media/" + n] = "media " + n
         files["proj/media/link_out"] = {"symlink": "../../precious/a.txt"}
     elif case.get("media") == "missing":
@@ -335,7 +339,7 @@ def classify_ops(ops):
 def path_class(p):
     parts = p.split("/")
     for i, x in enumerate(parts):
-        if x in ("doc", "clidoc", "abs_out", "outside_doc", "realdocs", "api"):
+        if x in ("doc", "clidoc", "abs_out", "outside_doc", "realdocs", "api", "api v1.2"):
             return "/".join(parts[i + 1:i + 2]) or "<outdir>"
     return parts[1] if len(parts) > 1 else parts[0]
 
